@@ -1135,6 +1135,48 @@ func (e *c09Env) quiesce() {
 	e.pdw.staleP = 0
 	e.topoDone("quiesce")
 }
+// stuck: situations in which a request cannot be served yet — the leader's store is down, the region has no leader,
+// PD keeps answering from an old snapshot. The cache has no back-off of its own (the sender has); what it must not do is
+// spin silently: every failing round has to change the cache, consult PD, or return an error.
+func (e *c09Env) stuck() {
+	if e.halted() {
+		return
+	}
+	k := e.key()
+	var target c09R
+	for _, r := range e.regions() {
+		if contains(r.meta.StartKey, r.meta.EndKey, k) {
+			target = r
+		}
+	}
+	kind := e.rng.Intn(3)
+	switch kind {
+	case 0:
+		if target.leader.GetId() == 0 || len(e.stopped) > 0 {
+			return
+		}
+		e.cluster.StopStore(target.leader.GetStoreId())
+		e.stopped[target.leader.GetStoreId()] = true
+		e.x("topo stop store %d", target.leader.GetStoreId())
+	case 1:
+		e.cluster.GiveUpLeader(target.meta.Id)
+		e.topoDone("noleader %d", target.meta.Id)
+	default:
+		if len(e.pdw.snaps) < 2 {
+			return
+		}
+		e.pdw.staleP = 1
+	}
+	e.x("stuck begin\t%d\t%s", kind, c09hx(k))
+	fmt.Fprintf(e.w, "D\t%s\n", c09Dump(e.cache))
+	for i := 0; i < 8 && !e.halted(); i++ {
+		e.x("stuck round\t%d", i)
+		if e.round(k) {
+			break
+		}
+	}
+	e.x("stuck end")
+}
 func (e *c09Env) converge(nkeys int) {
 	if e.halted() {
 		return
@@ -1176,6 +1218,9 @@ func (e *c09Env) seqRandom(nsteps int, staleP float64, realistic bool) {
 		default:
 			e.round(e.key())
 		}
+	}
+	if e.rng.Intn(3) == 0 {
+		e.stuck()
 	}
 	e.converge(2)
 }
